@@ -1,11 +1,352 @@
 package faultsim
 
 import (
+	"context"
+	"crypto/sha256"
+	"encoding/hex"
+	"fmt"
+	"io"
+	"os"
+	"path/filepath"
+	"sort"
+	"strings"
+
+	"github.com/bufbuild/buf/private/pkg/storage"
+	"github.com/bufbuild/buf/private/pkg/storage/storagemem"
+	"github.com/bufbuild/buf/private/pkg/storage/storageos"
 	"github.com/bufbuild/verif/engine"
+	"github.com/bufbuild/verif/gen"
+	"github.com/bufbuild/verif/sched"
+	"github.com/bufbuild/verif/simfs"
+	"github.com/bufbuild/verif/tape"
 )
 
-// runAtomic is part B (atomic put); filled in below.
+// atomicPolicy injects at most a few faults, drawn from the tape, into the
+// destination operations of writer processes.
+type atomicPolicy struct {
+	rate      int // 0 = none; else one in rate
+	crashRate int
+	kinds     map[string][]string
+	budget    int
+}
+
+func (p *atomicPolicy) Decide(s *sched.Sim, op sched.Op) sched.Decision {
+	if !strings.HasPrefix(op.Proc, "w") || !strings.HasPrefix(op.Path, "dst:") {
+		return sched.Decision{}
+	}
+	if p.crashRate > 0 && s.Tape.Draw("crash?", p.crashRate) == 1 {
+		return sched.Decision{Fault: "proc-crash"}
+	}
+	if p.rate == 0 || p.budget == 0 {
+		return sched.Decision{}
+	}
+	ks := p.kinds[op.Kind]
+	if len(ks) == 0 {
+		return sched.Decision{}
+	}
+	v := s.Tape.Draw("fault?", p.rate)
+	if v == 0 || v > len(ks) {
+		return sched.Decision{}
+	}
+	p.budget--
+	d := sched.Decision{Fault: ks[v-1]}
+	if d.Fault == "short-write" && op.Size > 1 {
+		d.Arg = 1 + s.Tape.Draw("short", op.Size-1)
+	}
+	return d
+}
+
+func normState(state map[string]string) string {
+	// temp names carry a random suffix: normalise to "<dir>/.tmp<base>*"
+	var lines []string
+	for _, k := range simfs.SortedKeys(state) {
+		name := k
+		if simfs.IsTemp(k) {
+			name = filepath.ToSlash(filepath.Join(filepath.Dir(k), ".tmp*"))
+		}
+		h := sha256.Sum256([]byte(state[k]))
+		lines = append(lines, name+"="+hex.EncodeToString(h[:6]))
+	}
+	sort.Strings(lines)
+	return strings.Join(lines, ";")
+}
+
+// runAtomic is part B: atomic puts on a real directory, observed at every
+// scheduling point (= every possible kill point) and by concurrent readers.
 func runAtomic(r *runner) *engine.Outcome {
-	r.s.Drain()
-	return engine.FromSim(r.s)
+	s, tp := r.s, r.tp
+	s.MaxSteps = 5000
+	backend := tape.Pick(tp, "b.backend", []string{"os", "osmap", "os", "mem"})
+	hasOld := tp.Draw("b.hasold", 3) != 0
+	nWriters := 1 + tp.Draw("b.nwriters", 2)
+	nReaders := tp.Draw("b.nreaders", 3)
+	method := tape.Pick(tp, "b.method", []string{"PutPath", "ForWriteObject", "Copy"})
+	target := tape.Pick(tp, "b.target", []string{"p.txt", "sub/p.txt", "a/b/c/p.proto"})
+	old := gen.Content(tp, "old", false)
+	if len(old) == 0 {
+		old = []byte("old")
+	}
+	news := make([][]byte, nWriters)
+	chunks := make([]int, nWriters)
+	for i := range news {
+		news[i] = gen.Content(tp, fmt.Sprintf("new%d", i), true)
+		if len(news[i]) == 0 {
+			news[i] = []byte(fmt.Sprintf("new%d", i))
+		}
+		chunks[i] = 1 + tp.Draw("b.chunks", 4)
+	}
+	pol := &atomicPolicy{budget: 1 + tp.Draw("b.budget", 2)}
+	switch tp.Draw("b.faultmode", 4) {
+	case 1, 2:
+		pol.rate = 6
+	case 3:
+		pol.crashRate = 12
+	}
+	if backend == "mem" {
+		// memory writes cannot fail in reality; only visibility is checked there
+		pol.kinds = map[string][]string{"put": {"put-err"}}
+	} else {
+		pol.kinds = map[string][]string{"put": {"put-err"}, "write": {"write-err", "short-write"}, "close": {"close-err", "rename-err"}}
+	}
+	s.Policy = pol
+	s.Event("caseB backend=%s hasOld=%v writers=%d readers=%d method=%s target=%s", backend, hasOld, nWriters, nReaders, method, target)
+
+	dir := filepath.Join(r.env.Scratch, "b", "root")
+	if err := os.MkdirAll(dir, 0o755); err != nil {
+		panic(err)
+	}
+	var raw storage.ReadWriteBucket
+	var bucket storage.ReadWriteBucket
+	fileOnDisk := ""
+	bg := context.Background()
+	switch backend {
+	case "mem":
+		raw = storagemem.NewReadWriteBucket()
+		bucket = &simfs.Bucket{S: s, U: raw, Name: "dst", YieldReads: true}
+	default:
+		osb, err := storageos.NewProvider().NewReadWriteBucket(dir)
+		if err != nil {
+			panic(err)
+		}
+		r.hooks.RenameYield = true
+		sb := &simfs.Bucket{S: s, U: osb, Name: "dst", Hooks: r.hooks, YieldReads: true}
+		raw, bucket = osb, sb
+		fileOnDisk = filepath.Join(dir, filepath.FromSlash(target))
+		if backend == "osmap" {
+			raw = storage.MapReadWriteBucket(osb, storage.MapOnPrefix("view"))
+			bucket = storage.MapReadWriteBucket(sb, storage.MapOnPrefix("view"))
+			fileOnDisk = filepath.Join(dir, "view", filepath.FromSlash(target))
+		}
+	}
+	if err := storage.PutPath(bg, raw, "bystander.txt", []byte("bystander")); err != nil {
+		panic(err)
+	}
+	if hasOld {
+		if err := storage.PutPath(bg, raw, target, old); err != nil {
+			panic(err)
+		}
+	}
+	pre, _ := simfs.DirState(dir)
+	allowed := map[string]bool{}
+	if hasOld {
+		allowed[string(old)] = true
+	}
+	for _, n := range news {
+		allowed[string(n)] = true
+	}
+	classify := func(content string) string {
+		if hasOld && content == string(old) {
+			return "old"
+		}
+		for i, n := range news {
+			if content == string(n) {
+				return fmt.Sprintf("new%d", i)
+			}
+		}
+		return ""
+	}
+	crashPoints := 0
+	crashStates := map[string]struct{}{}
+	// the observer: at every scheduling point, what would a reader see after kill -9 now?
+	s.BeforeRelease = func(op sched.Op) {
+		crashPoints++
+		var content string
+		exists := false
+		if fileOnDisk != "" {
+			data, err := os.ReadFile(fileOnDisk)
+			if err == nil {
+				exists = true
+				content = string(data)
+			}
+			st, _ := simfs.DirState(dir)
+			crashStates[normState(st)] = struct{}{}
+		} else {
+			data, err := storage.ReadPath(bg, raw, target)
+			if err == nil {
+				exists = true
+				content = string(data)
+			}
+		}
+		if !exists {
+			if hasOld {
+				s.Violate("atomic-visible-in-full", "C15|atomic-crash-state|missing|"+method,
+					"at step %d (before %s) the object %s does not exist although it held the previous content", s.Steps, op.Key(), target)
+			}
+			return
+		}
+		if classify(content) == "" {
+			s.Violate("atomic-visible-in-full", "C15|atomic-crash-state|partial|"+method,
+				"at step %d (before %s) %s holds %d bytes that are neither the previous nor a complete new content", s.Steps, op.Key(), target, len(content))
+		}
+	}
+	werrs := make([]error, nWriters)
+	wdone := make([]bool, nWriters)
+	firedBefore := totalFired(s)
+	for i := 0; i < nWriters; i++ {
+		i := i
+		proc := s.Proc(fmt.Sprintf("w%d", i))
+		s.Spawn(proc, func(ctx context.Context) {
+			data := news[i]
+			switch method {
+			case "PutPath":
+				werrs[i] = storage.PutPath(ctx, bucket, target, data, storage.PutWithAtomic())
+			case "ForWriteObject":
+				werrs[i] = storage.ForWriteObject(ctx, bucket, target, func(wo storage.WriteObject) error {
+					n := chunks[i]
+					for c := 0; c < n; c++ {
+						lo, hi := len(data)*c/n, len(data)*(c+1)/n
+						if _, err := wo.Write(data[lo:hi]); err != nil {
+							return err
+						}
+					}
+					return nil
+				}, storage.PutWithAtomic())
+			case "Copy":
+				src, err := storagemem.NewReadBucket(map[string][]byte{target: data})
+				if err != nil {
+					panic(err)
+				}
+				_, werrs[i] = storage.Copy(ctx, src, bucket, storage.CopyWithAtomic())
+			}
+			wdone[i] = true
+		})
+	}
+	for j := 0; j < nReaders; j++ {
+		proc := s.Proc(fmt.Sprintf("r%d", j))
+		rounds := 1 + tp.Draw("b.rounds", 3)
+		s.Spawn(proc, func(ctx context.Context) {
+			for k := 0; k < rounds; k++ {
+				roc, err := bucket.Get(ctx, target)
+				if err != nil {
+					if storage.IsNotExist(err) {
+						if hasOld {
+							s.Violate("atomic-visible-in-full", "C15|atomic-reader|missing|"+method, "reader: %s not found although it held the previous content", target)
+						}
+						continue
+					}
+					if sched.ProcOf(ctx).Dead {
+						return
+					}
+					s.Violate("atomic-visible-in-full", "C15|atomic-reader|get-error|"+method, "reader: unexpected error %v", err)
+					continue
+				}
+				data, rerr := io.ReadAll(roc)
+				_ = roc.Close()
+				if rerr != nil {
+					if sched.ProcOf(ctx).Dead {
+						return
+					}
+					s.Violate("atomic-visible-in-full", "C15|atomic-reader|read-error|"+method, "reader: read error %v", rerr)
+					continue
+				}
+				c := classify(string(data))
+				if c == "" {
+					s.Violate("atomic-visible-in-full", "C15|atomic-reader|partial|"+method,
+						"reader saw %d bytes that are neither the previous nor a complete new content", len(data))
+				} else {
+					s.Probe("reader-saw-" + strings.TrimRight(c, "0123456789"))
+				}
+			}
+		})
+	}
+	s.Run()
+	s.BeforeRelease = nil
+	if s.Deadlocked {
+		s.Violate("harness-deadlock", "harness|deadlock|atomic", "deadlock in part B")
+	}
+	fired := totalFired(s) - firedBefore - s.Faults["proc-crash"]
+	crashed := s.Faults["proc-crash"] > 0
+	// final state
+	final, ferr := storage.ReadPath(bg, raw, target)
+	anyOK := false
+	for i := range werrs {
+		if wdone[i] && werrs[i] == nil {
+			anyOK = true
+		}
+	}
+	if nWriters == 1 && !crashed && wdone[0] {
+		if fired > 0 && werrs[0] == nil {
+			s.Violate("write-failure-reported", "C15|unreported|atomic-"+method, "an injected failure fired but the atomic put returned nil")
+		}
+		if werrs[0] != nil {
+			// failed atomic put: nothing new, nothing left behind
+			post, _ := simfs.DirState(dir)
+			if backend != "mem" {
+				if d := diffState(pre, post); d != "" {
+					s.Violate("failed-atomic-put-leaves-nothing", "C15|atomic-failed-put-residue|"+method,
+						"atomic put failed (%v) but the directory changed: %s", werrs[0], d)
+				}
+			} else if hasOld != (ferr == nil) || (hasOld && string(final) != string(old)) {
+				s.Violate("failed-atomic-put-leaves-nothing", "C15|atomic-failed-put-residue|"+method, "atomic put failed but the object changed")
+			}
+			s.Probe("atomic-put-failed-clean")
+		} else if string(final) != string(news[0]) {
+			s.Violate("success-implies-complete", "C15|success-incomplete|atomic-"+method, "atomic put returned nil but the object does not hold the new content")
+		}
+	}
+	if !crashed {
+		if anyOK {
+			ok := false
+			for i := range werrs {
+				if wdone[i] && werrs[i] == nil && ferr == nil && string(final) == string(news[i]) {
+					ok = true
+				}
+			}
+			if !ok {
+				s.Violate("success-implies-complete", "C15|success-incomplete|atomic-final|"+method, "a writer succeeded but the final content is not the content of any successful writer")
+			}
+		}
+		if backend != "mem" {
+			post, _ := simfs.DirState(dir)
+			for _, k := range simfs.SortedKeys(post) {
+				if simfs.IsTemp(k) {
+					s.Violate("failed-atomic-put-leaves-nothing", "C15|atomic-temp-left|"+method, "temp file %s left behind although no process crashed", k)
+					break
+				}
+			}
+		}
+	} else {
+		s.Probe("crash-during-atomic-put")
+		post, _ := simfs.DirState(dir)
+		for _, k := range simfs.SortedKeys(post) {
+			if simfs.IsTemp(k) {
+				s.Probe("crash-left-temp-file")
+				break
+			}
+		}
+	}
+	s.Drain()
+	out := engine.FromSim(s)
+	out.Counters = map[string]int{"crash_points": crashPoints}
+	var cs []string
+	for k := range crashStates {
+		cs = append(cs, k)
+	}
+	out.Distinct = map[string][]string{"crash-state": cs}
+	out.Sample = map[string]any{
+		"part": "B", "backend": backend, "has_old": hasOld, "writers": nWriters, "readers": nReaders, "method": method,
+		"target": target, "new_sizes": func() []int { v := []int{}; for _, n := range news { v = append(v, len(n)) }; return v }(),
+		"crash_points": crashPoints, "faults": s.Faults,
+	}
+	return out
 }
